@@ -22,7 +22,7 @@ from .corpus import CORPUS
 from .tok import Decl
 
 PROP = "C05"
-CORPUS_GRAMMARS = ["g1", "g2", "p1", "p2", "p3", "c1", "c2", "c3", "o1", "o2", "a1", "a2", "a3", "j1", "k1", "k2", "v2"]
+CORPUS_GRAMMARS = ["g1", "g2", "p1", "p2", "p3", "c1", "c2", "c3", "o1", "o2", "a1", "a2", "a3", "j1", "k1", "k2", "v2", "kc", "k3", "k4"]
 LEMMAS = ["remove", "set_scope", "take_flag", "take_arg", "take_arg_adjacent", "take_pos", "take_cmd"]
 WRAPS = ["optional", "optional_catch", "many", "some", "count", "last", "fallback", "fallback_with"]
 LOOPS = ("many", "some", "count", "last")
